@@ -401,13 +401,13 @@ def features(case, real, hist):
 def run(env, res):
     drv = env['driver']
     rng = common.make_rng(env['seed'], 'C05')
-    n_fam = 9000 if env["tier"] == "quick" else 90000
+    n_fam = 8000 if env["tier"] == "quick" else 90000
     res.rule = ('random overload families (1-4 layers, 0-4 overloads per layer, parameters positional/defaulted/keyword-only/'
                 '*/**/hidden/lazy/constant over the lattice Base>L,R>D + int/str/object/NoneType) with 3 calls each derived '
                 'from a random overload\'s signature and mutated; distinct = distinct (family, call); non-trivial = '
                 'at least two overloads and the outcome is not Unknown')
     hist = {}
-    n_hist = 3600 if env["tier"] == "quick" else 36000
+    n_hist = 3200 if env["tier"] == "quick" else 36000
     res.rule += ('; plus call histories on live Context forests (1-7 contexts): overloads of a pool of 2-6 are registered '
                  'step by step (same / ancestor / descendant / sibling contexts, some exclusively, some twice), deleted '
                  'with delete_function, children are created before and after, and calls - new ones and repeated '
